@@ -4,12 +4,81 @@ import relengine
 PID = "C14"
 
 
+def fname(e):
+    if "f" in e:
+        inner = [fname(a) for a in e["args"] if isinstance(a, dict) and "f" in a]
+        return e["f"] + ("(" + ",".join(inner) + ")" if inner else "")
+    return "col"
+
+
+def projection_part(rep, tier):
+    """Projections of a UNIQUE column (spec/ExprCases.tla UniqueCases, spec/Trace_Unique.tla): the relational engine only has
+    the values 0..2, on which e.g. abs is one-to-one; here every unary function and chains of two are evaluated on the
+    universe points of five order embeddings (negative values included) and the constraint the real Map keeps is judged."""
+    import copy
+    import os
+    import common as C
+    import relenc
+    r = C.tlc("MC_Functions", "MC_Functions.cfg", "c14_cases", workers=4, timeout=1200, constants={"Which": '"unique"', "Thin": 1})
+    C.require_model_ok(r, "ExprCases.tla (projections of a unique column)")
+    cases = r.json_payloads("REPLAY")
+    wd = C.workdir("c14u")
+    obs = C.qv_sharded(["dt-unique"], {"n": 5}, cases, wd, shards=6, timeout=3000)
+    recs = []
+    for o in obs:
+        rk = relenc.Ranker()
+        cells = []
+        for y in o["ys"]:
+            while isinstance(y, dict) and y.get("k") == "some":
+                y = y["v"]
+            k = y.get("k") if isinstance(y, dict) else None
+            v = y.get("v") if isinstance(y, dict) else None
+            if k in ("int", "float", "bool") and v is not None:
+                x = v if not isinstance(v, dict) else v.get("r", v)
+                cells.append(("n", relenc.float_of(x) if not isinstance(x, bool) else int(x)))
+            elif k in ("text", "date", "datetime", "time", "bytes") and v is not None:
+                cells.append(("s", k + ":" + str(v)))
+            else:
+                cells.append(None)
+        for c in cells:
+            if c and c[0] == "n":
+                rk.add_num(c[1])
+            elif c:
+                rk.add_str(c[1])
+        rk.freeze()
+        ys = [[0, 0, 0] if c is None else ([1, rk.num(c[1]), 0] if c[0] == "n" else [3, rk.str(c[1]), 0]) for c in cells]
+        recs.append({"case": o["case"], "emb": o["emb"], "unique_kept": bool(o["unique_kept"]), "ys": ys or [[0, 0, 0]]})
+    tp = os.path.join(wd, "trace.ndjson")
+    C.write_ndjson(tp, recs)
+    tr, fails, _ = C.validate_trace("Trace_Unique", "Trace_Unique.cfg", tp, "c14u_judge", timeout=3000)
+    for i, judge in fails:
+        o = obs[i - 1]
+        c = cases[o["case"]]
+        cls = "extreme" if o["emb"] in ("extreme", "p53") else "small"
+        rep.fail(f"{judge}/{fname(c['expr'])}/{c['cols'][0]['k']}/{cls}", f"judge {judge} failed",
+                 {"engine": "dt-unique", "case": {"expr": c["expr"], "column": c["cols"][0], "embedding": o["emb"], "values": o["ys"][:8]}})
+    kept = [x for x in recs if x["unique_kept"] and len(x["ys"]) >= 2]
+    if not kept:
+        raise C.ToolError("no projection keeps the UNIQUE constraint: the binding of dt-unique is broken")
+    a = copy.deepcopy(kept[0])
+    a["ys"][1] = a["ys"][0] = [1, 0, 0]
+    sp = os.path.join(wd, "selftest.ndjson")
+    C.write_ndjson(sp, [a])
+    _, f2, _ = C.validate_trace("Trace_Unique", "Trace_Unique.cfg", sp, "c14u_selftest")
+    if (1, "UniqueKeptOnlyIfInjective") not in set(f2):
+        raise C.ToolError("binding self-test of Trace_Unique failed")
+    return {"cases": len(cases), "records": len(recs), "projections_keeping_unique": len({(x["case"]) for x in recs if x["unique_kept"]}),
+            "functions_keeping_unique": sorted({fname(cases[x["case"]]["expr"]) for x in recs if x["unique_kept"]})[:40],
+            "embeddings": 5, "binding_selftest": {"duplicate_under_unique_flagged": True}, "checker_cmd": tr.cmd}
+
+
 def run(tier, t0):
     return relengine.report(PID, tier, t0, [
         "SQLite 3.40 as the executor of original and rendered SQL (UDFs of harness/src/sqlx.rs)",
         "rank encoding of values and bounds (lib/relenc.py); TLC decides containment",
         "generated fragment: spec/QueryShapes.tla over two tables, values 0..2, NULL, three strings",
-    ])
+        "projections: the value of an expression is the library's own Expr::value on distinct universe points of the column",
+    ], extra=projection_part)
 
 
 def replay(path):
